@@ -649,7 +649,7 @@ def chk_c17(what):
                 except ValueError:
                     continue
                 return f"a second name on {f!r} did not raise ValueError"
-    if what in ("cached-call", "returns-function-value", "cache-invariant", "only-if-function-raises", "frame"):
+    if what in ("cached-call", "returns-function-value", "cache-invariant", "only-if-function-raises", "frame", "cache-unchanged"):
         calls = []
 
         def f(x, k=0):
@@ -682,6 +682,27 @@ def chk_c17(what):
                         same = np.array_equal(got, want) if isinstance(want, np.ndarray) else got == want
                         if not same:
                             return f"wrapped call returned {got!r} instead of {want!r} at {x!r} kw={kw} in sequence {seq!r}"
+        # a function that raises on some arguments: the wrapper raises exactly when the function does, and a
+        # call that raised leaves the cache describing the last successful call
+        def fr(x):
+            if x < 0:
+                raise ValueError("negative")
+            return x * 2
+
+        for wrap in (cached, lambda h: named("n", cached(h))):
+            for seq in ([3, -1, -1, 3, 4], [-1, -1, 2], [2, -1, 2, -2, -2]):
+                w = wrap(fr)
+                for x in seq:
+                    try:
+                        want, want_exc = fr(x), None
+                    except ValueError as e:
+                        want, want_exc = None, e
+                    try:
+                        got, got_exc = w(x), None
+                    except Exception as e:
+                        got, got_exc = None, e
+                    if (want_exc is None) != (got_exc is None) or (got_exc is not None and not isinstance(got_exc, ValueError)) or got != want:
+                        return f"cached function at argument {x!r} in sequence {seq!r}: got {got!r} / {got_exc!r}, the function gives {want!r} / {want_exc!r}"
     if what in ("string-expr",):
         import math
 
